@@ -130,26 +130,39 @@ let show_table (before : etable list) (t : etable) : string =
 
 let run_apply id =
   let fk = next_bool () in
-  let intx = next_bool () in
+  let tx = next_int () in          (* 0 on the connection, 1 through OpenTx, 2 inside a plain transaction *)
   let k = next_int () in
   let nt = next_int () in
   let tabs = times nt parse_table in
   let nc = next_int () in
   let cs = times nc parse_schange in
-  let d = { d_tables = tabs; d_fk = fk; d_intx = intx } in
   let rec take n l = if n <= 0 then [] else match l with [] -> [] | x :: r -> x :: take (n - 1) r in
-  let result, head =
-    if k < 0 then applyChanges conv genv d cs, "ok"
-    else (match planChanges cs with
-          | PErr _ -> None
-          | POk p -> Some (exec_all conv genv d (take k p))), "prefix" in
-  match result with
-  | None -> Printf.printf "%s res planerr\n" id
-  | Some (EErr e) -> Printf.printf "%s res %s\n" id (err_name e)
-  | Some (EOk d') ->
-      Printf.printf "%s res %s\n" id head;
-      let ts = Stdlib.List.sort (fun a b -> compare (string_of_bytes a.et_name) (string_of_bytes b.et_name)) d'.d_tables in
-      Stdlib.List.iter (fun t -> Printf.printf "%s %s\n" id (show_table tabs t)) ts
+  let show head d' =
+    Printf.printf "%s res %s\n" id head;
+    let ts = Stdlib.List.sort (fun a b -> compare (string_of_bytes a.et_name) (string_of_bytes b.et_name)) d'.d_tables in
+    Stdlib.List.iter (fun t -> Printf.printf "%s %s\n" id (show_table tabs t)) ts in
+  if k >= 0 then begin
+    (* the first k statements of the plan, on the connection *)
+    let d = { d_tables = tabs; d_fk = fk; d_intx = false } in
+    match planChanges cs with
+    | PErr _ -> Printf.printf "%s res planerr\n" id
+    | POk p ->
+        (match exec_all conv genv d (take k p) with
+         | EErr e -> Printf.printf "%s res %s\n" id (err_name e)
+         | EOk d' -> show "prefix" d')
+  end else if tx = 2 then begin
+    let d = { d_tables = tabs; d_fk = fk; d_intx = true } in
+    match applyChanges conv genv d cs with
+    | None -> Printf.printf "%s res planerr\n" id
+    | Some (EErr e) -> Printf.printf "%s res %s\n" id (err_name e)
+    | Some (EOk d') -> show "ok" d'
+  end else begin
+    let d = { d_tables = tabs; d_fk = fk; d_intx = false } in
+    match schema_apply conv genv (if tx = 1 then TxFile else TxNone) d cs with
+    | None -> Printf.printf "%s res planerr\n" id
+    | Some (_, Some e) -> Printf.printf "%s res %s\n" id (err_name e)
+    | Some (d', None) -> show "ok" d'
+  end
 
 let hn b = hexs (string_of_bytes b)
 
